@@ -294,6 +294,13 @@ def run_spec(S, oracle_classes, wall=20, keep=False):
                     sim.simulate_until_max_customers(op[1], method=op[2])
                 elif op[0] == "deadlock":
                     sim.simulate_until_deadlock()
+                elif op[0] == "peek":
+                    # the caller inspects results while the run is paused (read-only API): nothing may change
+                    sim.get_all_records()
+                    sim.get_all_individuals()
+                    R.counts["F8:results_read_mid_run"] += 1
+                    R.seg += 1
+                    continue
                 elif op[0] == "spawn":
                     # F9 mid-run: while this simulation is paused, the caller builds another Simulation from the same
                     # Network object (and never runs it).  Nothing about the paused simulation may change.
